@@ -347,7 +347,12 @@ func soleDirectCall(g *ssa.Function) *ssa.Call {
 				continue
 			}
 			n++
-			refs := *mc.Referrers()
+			var refs []ssa.Instruction
+			for _, ref := range *mc.Referrers() {
+				if _, isDbg := ref.(*ssa.DebugRef); !isDbg {
+					refs = append(refs, ref)
+				}
+			}
 			if len(refs) != 1 {
 				return nil
 			}
@@ -357,6 +362,32 @@ func soleDirectCall(g *ssa.Function) *ssa.Call {
 			}
 			site = c
 		}
+	}
+	if n == 0 && len(g.FreeVars) == 0 {
+		// a literal that captures nothing is used as the function value itself
+		uses := 0
+		for _, b := range parent.Blocks {
+			for _, in := range b.Instrs {
+				if _, isDbg := in.(*ssa.DebugRef); isDbg {
+					continue
+				}
+				for _, op := range in.Operands(nil) {
+					if op != nil && *op == ssa.Value(g) {
+						uses++
+						if c, isCall := in.(*ssa.Call); isCall && c.Call.Value == ssa.Value(g) {
+							site = c
+						} else {
+							return nil
+						}
+					}
+				}
+			}
+		}
+		if uses == 1 && site != nil {
+			soleCallMemo[g] = site
+			return site
+		}
+		return nil
 	}
 	if n != 1 {
 		return nil
